@@ -625,8 +625,37 @@ func Run(t *testing.T, pkg string, types []T) {
 	}
 	out := vh.Open("c40_" + strings.ReplaceAll(pkg, "/", "_"))
 	defer out.Close()
+	schemaOK := map[string]bool{}
+	schemaDone := map[string]bool{}
+	emitSchema := func(ty T) {
+		name := pkg + "." + ty.Name
+		if schemaDone[name] {
+			return
+		}
+		schemaDone[name] = true
+		tytext, err := DescribeType(reflect.TypeOf(ty.New()).Elem(), map[reflect.Type]bool{})
+		if err != nil {
+			out.Emit(fmt.Sprintf("schema %s -", name), "schema-skip "+err.Error())
+			return
+		}
+		schemaOK[name] = true
+		out.Emit(fmt.Sprintf("schema %s %s", name, tytext), "schema-ok")
+	}
+	// describe returns the object text for the schema tie ("-" when the type / value is outside the model) and the
+	// suffix the Lean driver must reproduce
+	describe := func(name string, obj MU) (string, string) {
+		if !schemaOK[name] {
+			return "-", ""
+		}
+		var sb strings.Builder
+		if err := DescribeValue(reflect.ValueOf(obj).Elem(), &sb); err != nil {
+			return "-", ""
+		}
+		return sb.String(), " schema=ok"
+	}
 	one := func(ty T, mode string, seed uint64, rawHex string) {
 		name := pkg + "." + ty.Name
+		emitSchema(ty)
 		var obj MU
 		if mode == "raw" {
 			b, err := hex.DecodeString(rawHex)
@@ -666,10 +695,17 @@ func Run(t *testing.T, pkg string, types []T) {
 			// some allocbounds are tiny (e.g. one state-proof type): the same instance again with every bounded
 			// collection holding exactly one element (deterministic: replay takes the same path)
 			if obj2, err := instance(ty, mode, seed, true); err == nil {
-				e1, res = Check(ty, obj2)
+				obj = obj2
+				e1, res = Check(ty, obj)
 			}
 		}
-		out.Emit(fmt.Sprintf("%s %s %d %s", name, mode, seed, hex.EncodeToString(e1)), res)
+		otext, suffix := describe(name, obj)
+		if strings.HasPrefix(res, "canon") {
+			res += suffix
+		} else {
+			otext = "-"
+		}
+		out.Emit(fmt.Sprintf("%s %s %d %s %s", name, mode, seed, hex.EncodeToString(e1), otext), res)
 	}
 	if ops, ok := vh.ReplayOps(); ok {
 		for _, op := range ops {
@@ -688,11 +724,18 @@ func Run(t *testing.T, pkg string, types []T) {
 	k := vh.Budget(8, 40) // instances per type and mode
 	for _, ty := range types {
 		// the zero value first (not an instance of a type with a `required` field: its own decoder rejects it)
-		e1, res := Check(ty, ty.New())
+		emitSchema(ty)
+		zero := ty.New()
+		e1, res := Check(ty, zero)
+		otext := "-"
 		if strings.HasPrefix(res, "FAIL decode-") && strings.Contains(res, "missing required field") {
 			res = "SKIP zero value lacks a required field"
+		} else if strings.HasPrefix(res, "canon") {
+			var suffix string
+			otext, suffix = describe(pkg+"."+ty.Name, zero)
+			res += suffix
 		}
-		out.Emit(fmt.Sprintf("%s.%s raw 0 %s", pkg, ty.Name, hex.EncodeToString(e1)), res)
+		out.Emit(fmt.Sprintf("%s.%s raw 0 %s %s", pkg, ty.Name, hex.EncodeToString(e1), otext), res)
 		for _, mode := range Modes {
 			for i := 0; i < k; i++ {
 				one(ty, mode, instSeed(vh.Seed(), ty.Name, mode, i), "")
